@@ -176,7 +176,11 @@ class World(object):
                             attrs["reply"] = "%s-%d" % (t, n)
                         pt = bytes(bytearray(WriteEncoder(TokenDictionary()).protocolTreeNodeToBytes(ProtocolTreeNode("ib", attrs))))
                         if j["fault"] == "undecodable":
-                            pt = b"\x00\xf8\x02\xfc"           # list of 2 whose tag announces a string that is not there
+                            # three ways a frame can be undecodable: a list of 2 whose tag announces a string that is not there, a frame
+                            # flagged compressed whose payload does not inflate, a compressed frame that is cut off
+                            import zlib as _z
+                            pt = (b"\x00\xf8\x02\xfc", b"\x02" + b"\xf8\x02\xfc\x01a",
+                                  b"\x02" + _z.compress(pt[1:] * 3)[:-5])[(n + len(t) + ord(t[-1])) % 3]
                         self.rig.net.onRecvData(self.srv.send(pt))
                     self.outcome[t].append("ok")
                 except sched.Killed:
@@ -234,6 +238,12 @@ class World(object):
             if exp is not None and self.outcome[t] != exp:
                 problems.append(("outcome:%s" % ("not-reported" if "raised" in exp and self.outcome[t].count("raised") < exp.count("raised") else "differs"),
                                  "thread %s: job outcomes %s, specification %s" % (t, self.outcome[t], exp)))
+        # every failing operation is reported to SOME caller (a failure on the way up: to whichever receive call was flushing): over all
+        # threads there are at least as many raising calls as failing operations
+        nfault = sum(1 for t in jobs for j in jobs[t] if j["fault"] != "none")
+        nraised = sum(o.count("raised") for o in self.outcome.values())
+        if not problems and all(len(self.outcome[t]) == len(jobs[t]) for t in jobs) and nraised < nfault:
+            problems.append(("outcome:not-reported", "%d failing operations, %d calls reported an error (outcomes %s)" % (nfault, nraised, dict(self.outcome))))
         held = [l.name for l in [self.rig.stack.getLayer(i).lock for i in range(7)] + [self.rig.noise._flush_lock] if l.held]
         if held:
             problems.append(("lock-leak", "locks still held after all operations returned: %s" % held))
